@@ -366,7 +366,7 @@ fn main() {
     let filter = if ck.is_replay() { None } else { StderrFilter::install() };
 
     let k1 = known.clone();
-    ck.run(Section::pbt("layered-history", tier.pick(1500, 150_000), case_s, move |c: &Case| supervised(c, &k1)).shards(16).shrink_iters(1500));
+    ck.run(Section::pbt("layered-history", tier.pick(3000, 150_000), case_s, move |c: &Case| supervised(c, &k1)).shards(16).shrink_iters(1500));
 
     let k2 = known.clone();
     let max_len = tier.pick(4usize, 5usize);
